@@ -79,8 +79,26 @@ func prepPackStep(W string, st PackStep) string {
 	return ""
 }
 
+func newPackerFor(st PackStep) *slug.Packer {
+	var opts []slug.PackerOption
+	if st.Ignore {
+		opts = append(opts, slug.ApplyTerraformIgnore())
+	}
+	if st.Deref {
+		opts = append(opts, slug.DereferenceSymlinks())
+	}
+	p, err := slug.NewPacker(opts...)
+	if err != nil {
+		panic("INTERNAL NewPacker: " + err.Error())
+	}
+	return p
+}
+
 // packOnly runs the Pack call of a step and renders its output canonically.
-func packOnly(W string, st PackStep) string {
+func packOnly(W string, st PackStep) string { return packWith(nil, W, st) }
+
+// packWith uses the given (possibly shared) Packer, or a fresh one when nil.
+func packWith(shared *slug.Packer, W string, st PackStep) string {
 	src := filepath.Join(W, "src")
 	if st.Src != "" {
 		src = strings.ReplaceAll(st.Src, "<W>", W)
@@ -95,21 +113,13 @@ func packOnly(W string, st PackStep) string {
 				pan = fmt.Sprint(r)
 			}
 		}()
-		if st.Legacy {
+		switch {
+		case shared != nil:
+			meta, err = shared.Pack(src, &buf)
+		case st.Legacy:
 			meta, err = slug.Pack(src, &buf, st.Deref)
-		} else {
-			var opts []slug.PackerOption
-			if st.Ignore {
-				opts = append(opts, slug.ApplyTerraformIgnore())
-			}
-			if st.Deref {
-				opts = append(opts, slug.DereferenceSymlinks())
-			}
-			var p *slug.Packer
-			p, err = slug.NewPacker(opts...)
-			if err == nil {
-				meta, err = p.Pack(src, &buf)
-			}
+		default:
+			meta, err = newPackerFor(st).Pack(src, &buf)
 		}
 	}()
 	if pan != "" {
